@@ -3,8 +3,11 @@
 //! Lean model on random configurations: every `VehicleCostRate` / `NetworkCostRate` constructor (nested
 //! `Combined` up to depth 3), both aggregations, weights with zeros / negatives / absent names / zero sum,
 //! state deltas of every sign, lookup tables that hit and miss, state vectors that are too short.
-//! Bit-exact on `traversal_cost`, `access_cost`, `cost_estimate` and on the `EdgeTraversal` record
-//! (`traversal_cost` field and `total_cost()`) built as `forward_traversal` builds it.
+//! Bit-exact on `traversal_cost`, `access_cost`, `cost_estimate` and on the records the real
+//! `EdgeTraversal::forward_traversal` / `reverse_traversal` return (`access_cost`, `traversal_cost`,
+//! `total_cost()`; with and without neighbouring edge) over a real `SearchInstance` whose access and
+//! traversal models are scripted to leave prescribed states; plus the three `cost_ops::calculate_*`
+//! functions called directly on arbitrary index lists and vector lengths.
 //! Oracle (on the real code's outputs only): positivity / finiteness, estimate >= 0, the sum (and product)
 //! formula recomputed in f64 from the flattened configuration, floor exactly when the recomputed value is
 //! clearly <= 0, zero-weight features ignored, linearity in the weights (x2 is exact in binary),
@@ -12,6 +15,15 @@
 use crate::ctx::{fbits, Ctx};
 use crate::rng::Rng;
 use routee_compass_core::algorithm::search::edge_traversal::EdgeTraversal;
+use routee_compass_core::algorithm::search::search_instance::SearchInstance;
+use routee_compass_core::model::access::access_model::AccessModel;
+use routee_compass_core::model::access::access_model_error::AccessModelError;
+use routee_compass_core::model::frontier::default::no_restriction::NoRestriction;
+use routee_compass_core::model::network::{Graph, Vertex};
+use routee_compass_core::model::termination::termination_model::TerminationModel;
+use routee_compass_core::model::traversal::traversal_model::TraversalModel;
+use routee_compass_core::model::traversal::traversal_model_error::TraversalModelError;
+use routee_compass_core::util::compact_ordered_hash_map::CompactOrderedHashMap;
 use routee_compass_core::model::cost::cost_aggregation::CostAggregation;
 use routee_compass_core::model::cost::cost_model::CostModel;
 use routee_compass_core::model::cost::cost_ops;
@@ -60,9 +72,64 @@ struct Case {
     feats: Vec<Feature>,
     prev: Vec<f64>,
     next: Vec<f64>,
+    /// the state the (scripted) access model leaves; the (scripted) traversal model leaves `next`
+    mid: Vec<f64>,
     e: usize,
     pe: usize,
     ne: usize,
+}
+
+/// traversal model that leaves a prescribed state (the cost bookkeeping of EdgeTraversal is what is observed)
+struct ScriptedTraversal(Vec<StateVar>);
+impl TraversalModel for ScriptedTraversal {
+    fn state_features(&self) -> Vec<(String, StateFeature)> {
+        vec![]
+    }
+    fn traverse_edge(&self, _: (&Vertex, &Edge, &Vertex), state: &mut Vec<StateVar>, _: &StateModel) -> Result<(), TraversalModelError> {
+        *state = self.0.clone();
+        Ok(())
+    }
+    fn estimate_traversal(&self, _: (&Vertex, &Vertex), state: &mut Vec<StateVar>, _: &StateModel) -> Result<(), TraversalModelError> {
+        *state = self.0.clone();
+        Ok(())
+    }
+}
+
+/// access model that leaves a prescribed state
+struct ScriptedAccess(Vec<StateVar>);
+impl AccessModel for ScriptedAccess {
+    fn state_features(&self) -> Vec<(String, StateFeature)> {
+        vec![]
+    }
+    fn access_edge(&self, _: (&Vertex, &Edge, &Vertex, &Edge, &Vertex), state: &mut Vec<StateVar>, _: &StateModel) -> Result<(), AccessModelError> {
+        *state = self.0.clone();
+        Ok(())
+    }
+}
+
+/// a path graph with edges 0..6 (edge k: vertex k -> k+1); the EdgeTraversal functions only look the
+/// edges and their end vertices up
+fn path_graph() -> Graph {
+    let vertices: Vec<Vertex> = (0..8).map(|k| Vertex::new(k, k as f32 * 0.001, 0.0)).collect();
+    let edges: Vec<Edge> = (0..7).map(|k| Edge::new(k, k, k + 1, 1.0)).collect();
+    let adj: Vec<CompactOrderedHashMap<EdgeId, routee_compass_core::model::network::VertexId>> =
+        (0..8).map(|_| CompactOrderedHashMap::empty()).collect();
+    let rev = adj.clone();
+    Graph { adj: adj.into_boxed_slice(), rev: rev.into_boxed_slice(), edges: edges.into_boxed_slice(), vertices: vertices.into_boxed_slice() }
+}
+
+/// `access_cost`, `traversal_cost` fields and `total_cost()` of an EdgeTraversal
+type Rec = Option<(f64, f64, f64)>;
+
+fn rec_of(r: Result<EdgeTraversal, routee_compass_core::algorithm::search::search_error::SearchError>) -> Rec {
+    r.ok().map(|et| (et.access_cost.as_f64(), et.traversal_cost.as_f64(), et.total_cost().as_f64()))
+}
+
+fn rec_out(r: &Rec) -> String {
+    match r {
+        Some((a, s, t)) => format!("{} {} {}", fbits(*a), fbits(*s), fbits(*t)),
+        None => "err err err".into(),
+    }
 }
 
 impl VR {
@@ -237,10 +304,9 @@ enum Out {
         t: Option<f64>,
         a: Option<f64>,
         est: Option<f64>,
-        /// `traversal_cost` field and `total_cost()` of the EdgeTraversal record, with a previous edge
-        with_prev: Option<(f64, f64)>,
-        /// the same without previous edge
-        no_prev: Option<(f64, f64)>,
+        /// EdgeTraversal::forward_traversal with previous edge `pe` / without; reverse_traversal with
+        /// next edge `ne` / without
+        recs: [Rec; 4],
     },
 }
 
@@ -256,15 +322,15 @@ impl Out {
         match self {
             Out::Panic => "panic".into(),
             Out::NewErr => "new-err".into(),
-            Out::Ok { t, a, est, with_prev, no_prev } => format!(
+            Out::Ok { t, a, est, recs } => format!(
                 "ok {} {} {} {} {} {} {}",
                 fopt(*t),
                 fopt(*a),
                 fopt(*est),
-                fopt(with_prev.map(|p| p.0)),
-                fopt(with_prev.map(|p| p.1)),
-                fopt(no_prev.map(|p| p.0)),
-                fopt(no_prev.map(|p| p.1))
+                rec_out(&recs[0]),
+                rec_out(&recs[1]),
+                rec_out(&recs[2]),
+                rec_out(&recs[3])
             ),
         }
     }
@@ -284,23 +350,12 @@ fn state_feature(k: usize) -> StateFeature {
     }
 }
 
-/// the record `EdgeTraversal::forward_traversal` builds from the two cost-model results
-fn edge_record(e: usize, access: Option<f64>, total: f64) -> (f64, f64) {
-    let mut access_cost = Cost::ZERO;
-    if let Some(ac) = access {
-        access_cost = access_cost + Cost::new(ac);
-    }
-    let traversal_cost = Cost::new(total) - access_cost;
-    let et = EdgeTraversal { edge_id: EdgeId(e), access_cost, traversal_cost, result_state: vec![] };
-    (et.traversal_cost.as_f64(), et.total_cost().as_f64())
-}
-
 /// builds the real state model and cost model and evaluates the API; also returns the feature names in
 /// the order `state_model.indexed_iter()` yields them (the order the case line is written in)
 fn eval(case: &Case, ghost: bool) -> (Out, Vec<String>) {
-    let sm = StateModel::new(
+    let sm = Arc::new(StateModel::new(
         case.feats.iter().enumerate().map(|(k, f)| (f.name.clone(), state_feature(k))).collect::<Vec<_>>(),
-    );
+    ));
     let order: Vec<String> = sm.indexed_iter().map(|(_, (name, _))| name.clone()).collect();
     let mut w: HashMap<String, f64> = HashMap::new();
     let mut v: HashMap<String, VehicleCostRate> = HashMap::new();
@@ -325,9 +380,10 @@ fn eval(case: &Case, ghost: bool) -> (Out, Vec<String>) {
     let agg = if case.mul { CostAggregation::Mul } else { CostAggregation::Sum };
     let prev: Vec<StateVar> = case.prev.iter().map(|x| StateVar(*x)).collect();
     let next: Vec<StateVar> = case.next.iter().map(|x| StateVar(*x)).collect();
+    let mid: Vec<StateVar> = case.mid.iter().map(|x| StateVar(*x)).collect();
     let (e, pe, ne) = (case.e, case.pe, case.ne);
     let r = catch_unwind(AssertUnwindSafe(|| {
-        let cm = match CostModel::new(Arc::new(w), Arc::new(v), Arc::new(n), agg, Arc::new(sm)) {
+        let cm = match CostModel::new(Arc::new(w), Arc::new(v), Arc::new(n), agg, sm.clone()) {
             Ok(cm) => cm,
             Err(_) => return Out::NewErr,
         };
@@ -337,12 +393,23 @@ fn eval(case: &Case, ghost: bool) -> (Out, Vec<String>) {
         let t = cm.traversal_cost(&edge, &prev, &next).ok().map(|c| c.as_f64());
         let a = cm.access_cost(&prev_edge, &next_edge, &prev, &next).ok().map(|c| c.as_f64());
         let est = cm.cost_estimate(&prev, &next).ok().map(|c| c.as_f64());
-        let with_prev = match (a, t) {
-            (Some(a), Some(t)) => Some(edge_record(e, Some(a), t)),
-            _ => None,
+        // the real EdgeTraversal constructors, over scripted access / traversal models
+        let si = SearchInstance {
+            directed_graph: Arc::new(path_graph()),
+            state_model: sm.clone(),
+            traversal_model: Arc::new(ScriptedTraversal(next.clone())),
+            access_model: Arc::new(ScriptedAccess(mid.clone())),
+            cost_model: Arc::new(cm),
+            frontier_model: Arc::new(NoRestriction {}),
+            termination_model: Arc::new(TerminationModel::IterationsLimit { limit: 10 }),
         };
-        let no_prev = t.map(|t| edge_record(e, None, t));
-        Out::Ok { t, a, est, with_prev, no_prev }
+        let recs = [
+            rec_of(EdgeTraversal::forward_traversal(EdgeId(e), Some(EdgeId(pe)), &prev, &si)),
+            rec_of(EdgeTraversal::forward_traversal(EdgeId(e), None, &prev, &si)),
+            rec_of(EdgeTraversal::reverse_traversal(EdgeId(e), Some(EdgeId(ne)), &prev, &si)),
+            rec_of(EdgeTraversal::reverse_traversal(EdgeId(e), None, &prev, &si)),
+        ];
+        Out::Ok { t, a, est, recs }
     }));
     (r.unwrap_or(Out::Panic), order)
 }
@@ -379,6 +446,8 @@ fn case_line(case: &Case, order: &[String]) -> String {
     out.extend(case.prev.iter().map(|x| fbits(*x)));
     out.push(case.next.len().to_string());
     out.extend(case.next.iter().map(|x| fbits(*x)));
+    out.push(case.mid.len().to_string());
+    out.extend(case.mid.iter().map(|x| fbits(*x)));
     out.push(case.e.to_string());
     out.push(case.pe.to_string());
     out.push(case.ne.to_string());
@@ -530,7 +599,24 @@ fn gen_case(rng: &mut Rng) -> Case {
         }
         _ => {}
     }
-    Case { mul, feats, prev, next, e, pe, ne }
+    // the state after the access step: unchanged (no access model), a turn delay added to some
+    // feature, the final state already, or a vector of the wrong length
+    let mut mid = prev.clone();
+    match rng.below(10) {
+        0..=3 => {}
+        4..=6 => {
+            for x in mid.iter_mut() {
+                if rng.chance(1, 2) {
+                    *x += value(rng).abs();
+                }
+            }
+        }
+        7 | 8 => mid = next.clone(),
+        _ => {
+            mid.truncate(rng.below(n + 1));
+        }
+    }
+    Case { mul, feats, prev, next, mid, e, pe, ne }
 }
 
 // ---------------------------------------------------------------- hand-written corpus
@@ -543,6 +629,7 @@ fn corpus() -> Vec<Case> {
     let c = |mul: bool, feats: Vec<Feature>, prev: Vec<f64>, next: Vec<f64>, e: usize, pe: usize, ne: usize| Case {
         mul,
         feats,
+        mid: prev.clone(),
         prev,
         next,
         e,
@@ -751,7 +838,7 @@ fn oracle(ctx: &mut Ctx, idx: usize, case: &Case, out: &Out, rng: &mut Rng) {
     }
     let n = case.feats.len();
     let wsum: f64 = case.feats.iter().map(|f| f.weight.unwrap_or(0.0)).sum();
-    let (t, a, est, with_prev, no_prev) = match out {
+    let (t, a, est, recs) = match out {
         Out::Panic => {
             ctx.fail(idx, "cost_model/panic", "the cost model panicked".into());
             return;
@@ -762,7 +849,7 @@ fn oracle(ctx: &mut Ctx, idx: usize, case: &Case, out: &Out, rng: &mut Rng) {
             }
             return;
         }
-        Out::Ok { t, a, est, with_prev, no_prev } => (*t, *a, *est, *with_prev, *no_prev),
+        Out::Ok { t, a, est, recs } => (*t, *a, *est, *recs),
     };
     if wsum == 0.0 {
         ctx.fail(idx, "cost_model_new/accepts-zero-weights", "weights sum to zero but CostModel::new succeeded".into());
@@ -804,13 +891,30 @@ fn oracle(ctx: &mut Ctx, idx: usize, case: &Case, out: &Out, rng: &mut Rng) {
             ctx.count("estimate_clipped");
         }
     }
-    // the EdgeTraversal record: access + (total - access) must be the (positive) traversal total
-    for (site, rec, acc) in [("edge_traversal", with_prev, a), ("edge_traversal_no_prev", no_prev, 0.0)] {
-        if let Some((_share, total)) = rec {
-            if !(total.is_finite() && total > 0.0) {
-                ctx.fail(idx, &format!("{}/total-not-positive", site), format!("access {} + (total {} - access) = {}", acc, t, total));
-            } else if (total - t).abs() > REL * (acc.abs() + t.abs()) {
-                ctx.fail(idx, &format!("{}/total-differs", site), format!("access {} + (total {} - access) = {}", acc, t, total));
+    // the EdgeTraversal records (real forward_traversal / reverse_traversal): the cost charged for
+    // accessing plus traversing the edge, `total_cost()`, must be strictly positive and equal to what
+    // traversal_cost charged (access + (total - access) = total), the access share never negative
+    let mid_ok = case.mid.len() >= n;
+    for (k, site) in ["forward_traversal", "forward_traversal_no_prev", "reverse_traversal", "reverse_traversal_no_next"].iter().enumerate() {
+        let needs_access = k % 2 == 0;
+        match recs[k] {
+            None => {
+                if !needs_access || mid_ok {
+                    ctx.fail(idx, &format!("{}/unexpected-error", site), "state vectors cover all features but the edge traversal failed".into());
+                }
+            }
+            Some((acc, _share, total)) => {
+                if needs_access && !mid_ok {
+                    ctx.fail(idx, &format!("{}/short-state-accepted", site), "access state shorter than the state model was accepted".into());
+                }
+                if !(acc.is_finite() && acc >= 0.0) || (needs_access && acc <= 0.0) || (!needs_access && acc != 0.0) {
+                    ctx.fail(idx, &format!("{}/access-share", site), format!("access share {}", acc));
+                }
+                if !(total.is_finite() && total > 0.0) {
+                    ctx.fail(idx, "edge_traversal/total-not-positive", format!("{}: access {} + (total {} - access) = {}", site, acc, t, total));
+                } else if (total - t).abs() > REL * (acc.abs() + t.abs()) {
+                    ctx.fail(idx, "edge_traversal/total-differs", format!("{}: access {} + (total {} - access) = {}", site, acc, t, total));
+                }
             }
         }
     }
@@ -1018,5 +1122,5 @@ pub fn run(ctx: &mut Ctx) -> &'static str {
         let mut rng = Rng::for_case(ctx.seed, 7, idx as u64);
         ops_case(ctx, idx, &mut rng);
     }
-    "hand-written corpus, then random cost-model configurations over a real StateModel (0-12 features, every vehicle/network rate constructor, Combined nested to depth 3, sum and mul aggregation, weights absent/zero/negative/zero-sum, state deltas of every sign, lookups that hit and miss, too-short state vectors), then the three cost_ops::calculate_* functions called directly on arbitrary index lists / vector lengths (out-of-range and repeated indices, empty feature list); non-trivial = CostModel::new succeeds, all three API calls return a cost and at least one feature has a non-zero weight with a non-zero vehicle rate, or an in-range non-empty cost_ops call; distinct by full case text"
+    "hand-written corpus, then random cost-model configurations over a real StateModel (0-12 features, every vehicle/network rate constructor, Combined nested to depth 3, sum and mul aggregation, weights absent/zero/negative/zero-sum, state deltas of every sign, lookups that hit and miss, too-short state vectors; EdgeTraversal::forward_traversal / reverse_traversal over a SearchInstance with scripted access and traversal models), then the three cost_ops::calculate_* functions called directly on arbitrary index lists / vector lengths (out-of-range and repeated indices, empty feature list); non-trivial = CostModel::new succeeds, all three API calls return a cost and at least one feature has a non-zero weight with a non-zero vehicle rate, or an in-range non-empty cost_ops call; distinct by full case text"
 }
